@@ -672,7 +672,8 @@ func runOne(src []byte, E, B int64, wantExplain bool) (status string, tokens, st
 	// (prefix-operator and left-deep operator chains nest without brackets: EXPLAIN text is quadratic in the nesting depth by its
 	// format, a 30000-deep `- - - x` chain prints gigabytes of indentation)
 	if maxNesting(src) > 1000 || bytes.Count(src, []byte("CASE")) > 1000 || bytes.Count(src, []byte("SELECT")) > 1000 ||
-		bytes.Count(src, []byte("NOT ")) > 1000 || bytes.Count(src, []byte("- ")) > 1000 || bytes.Count(src, []byte(" + ")) > 1000 {
+		bytes.Count(src, []byte("NOT ")) > 1000 || bytes.Count(src, []byte("- ")) > 1000 || bytes.Count(src, []byte(" + ")) > 1000 ||
+		bytes.Count(src, []byte("a.a.")) > 10000 { // (a name of > 20000 dotted parts: Explain's name formatting is quadratic in the parts, Parse is linear)
 		return "ok", tokens, steps, "deep", ""
 	}
 	var sb strings.Builder
@@ -736,7 +737,7 @@ func run(args []string) {
 	K := fs.Int64("K", 64, "empirical bound of the property: steps <= K*(tokens+16), K calibrated on the corpus (max observed 13.5) with a safety factor")
 	ex := fs.Bool("explain", false, "append the hex EXPLAIN text of accepted inputs")
 	memBound := fs.Int64("mem", 0, "if > 0: status MEM when more than this many bytes per token are allocated (inputs of at least 512 tokens)")
-	hang := fs.Duration("hang", 60*time.Second, "wall-clock watchdog per input")
+	hang := fs.Duration("hang", 300*time.Second, "wall-clock watchdog per input")
 	fs.Parse(args)
 	in := bufio.NewScanner(os.Stdin)
 	in.Buffer(make([]byte, 1<<22), 1<<26)
